@@ -143,8 +143,9 @@ def chunkings(rng, data, n_random):
 
 
 # ---- implementation ----------------------------------------------------------------------------------
-def impl_stream(chunks):
-    """Feed tnet_machine chunk by chunk.  -> (status, type byte, payload bytes, bytes left unconsumed, converted?)"""
+def impl_stream(chunks, path=None):
+    """Feed tnet_machine chunk by chunk (optionally run under a data path, as an embedding grammar would).
+    -> (status, type byte, payload bytes, bytes left unconsumed, converted?)"""
     import cpppo
     from cpppo.server import tnet
     total = sum(len(c) for c in chunks)
@@ -153,7 +154,7 @@ def impl_stream(chunks):
     pending = list(chunks)
     try:
         with tnet.tnet_machine() as engine:
-            for mch, sta in engine.run(source=source, data=data):
+            for mch, sta in (engine.run(source=source, data=data) if path is None else engine.run(source=source, data=data, path=path)):
                 if sta is not None or source.peek() is not None:
                     continue
                 if not pending:
@@ -165,9 +166,10 @@ def impl_stream(chunks):
     if not terminal:
         return ('more',)
     left = total - source.sent
-    raw = data.get('tnet.data.input')
+    pre = '' if path is None else path + '.'
+    raw = data.get(pre + 'tnet.data.input')
     payload = raw.tobytes() if raw is not None else b''
-    return ('done', payload, left, data.tnet.type.input)
+    return ('done', payload, left, data[pre + 'tnet.type.input'])
 
 
 class ChunkedConn(object):
@@ -241,6 +243,16 @@ def run(ctx):
     n = 4000 if ctx.thorough else 500
     vals = [gen_value(rng, rng.choice([0, 1, 2, 3, 5, 8])) for _ in range(n)]
     vals += [[[[[[[[[[1]]]]]]]]], {}, [], b'', '', {'a': {'b': {'c': {'d': [None, {'e': b':'}]}}}}]
+    # "nested to any depth": towers of lists, of dicts, alternating, with siblings, at depths around common guard values and beyond
+    def tower(depth, kind):
+        v = rng.choice([1, b'x', None, 'y'])
+        for lvl in range(depth):
+            k = kind if kind != 'alt' else ('list', 'dict')[lvl % 2]
+            v = [v] if k == 'list' else ({'k': v} if k == 'dict' else [lvl, v, 'sib'])
+        return v
+    for depth in (16, 31, 32, 33, 34, 64, 100, 150):
+        for kind in ('list', 'dict', 'alt', 'sib'):
+            vals.append(tower(depth, kind))
     tails = [b'', b'0:~', b'\n', b'3:abc,', bytes(rng.getrandbits(8) for _ in range(7)), b'12', b'}']
     cov = ctx.coverage
     cases, meta = [], []
@@ -365,6 +377,11 @@ def run(ctx):
                     'tnet_from did not yield exactly the messages of the stream for this chunking')
         else:
             io = impl_stream(m[4])
+            # the same machine run under a data path (as an embedding grammar would): same result, found under that path
+            iop = impl_stream(m[4], path=('x', 'a.b')[len(m[4]) % 2])
+            if iop != io:
+                bad(dict(value=repr(m[1])[:200], chunks=[c.hex() for c in m[4]][:10], plain=repr(io)[:200], under_a_path=repr(iop)[:200]),
+                    'the streaming parser run under a data path extracts a different payload / value')
             v, d, tl = m[1], m[2], m[3]
             if o[0] == 1:
                 n = o[2]; mo = ('done', bytes(o[3:3 + n]), o[3 + n], o[4 + n])
